@@ -129,7 +129,7 @@ class C10(Check):
         if rng.random() < 0.2:
             cfg = W.gen_config(rng)          # a generated LALR grammar (sim/gramgen.py)
         e = W.ENTRIES[cfg.partition('/')[0]]
-        plan = {'config': cfg, 'mode': mode, 'warm': None, 'sched_seed': rng.randrange(1 << 30)}
+        plan = {'config': cfg, 'mode': mode, 'warm': None, 'sched_seed': rng.randrange(1 << 30), 'lalr_salt': rng.randrange(4)}
         if mode == 'threads':
             nt = rng.choice([2, 2, 3, 3, 4])
             if rng.random() < 0.35:
@@ -187,7 +187,12 @@ class C10(Check):
         cfg = plan['config']
         e = W.ENTRIES[cfg.partition('/')[0]]
         gc.collect()
-        p = W.build(cfg)                      # the shared instance: fresh, first use happens under the scheduler
+        from sim import seams
+        seams.set_lalr_salt(plan.get('lalr_salt', 0))
+        try:
+            p = W.build(cfg)                  # the shared instance: fresh, first use happens under the scheduler
+        finally:
+            seams.set_lalr_salt(0)            # (the oracle instances are always built under salt 0)
         shared = {}
         if plan.get('warm'):
             O.run_op(p, e, plan['warm'], {}, shared=shared)
